@@ -28,6 +28,16 @@ def _pre_json(app, kw=None):
     app.request.json
 
 
+def _pre_bodyecho(app, kw=None):
+    """answers with what it read from the (possibly spooled) body stream"""
+    import hashlib
+    b = app.request.body
+    data = b.read()
+    b.seek(0)
+    again = app.request.body.read()
+    return f'body {len(data)} {hashlib.sha1(data).hexdigest()[:12]} again={int(again == data)} cl={app.request.content_length}'
+
+
 def _pre_reqerr(app, kw=None):
     from ombott.request_pkg.errors import RequestError
     app.request._raise(RequestError('synthetic'), RequestError)
@@ -136,7 +146,7 @@ def make_pre_helper(hp):
     return pre
 
 
-PRE = {'body': _pre_body, 'json': _pre_json, 'reqerr': _pre_reqerr, 'upload': _pre_upload, 'wild': _pre_wild}
+PRE = {'body': _pre_body, 'bodyecho': _pre_bodyecho, 'json': _pre_json, 'reqerr': _pre_reqerr, 'upload': _pre_upload, 'wild': _pre_wild}
 
 
 def pre_of(h):
@@ -187,21 +197,90 @@ BODY_KINDS = {
     'good-body': ('body', b'hello', {'CONTENT_LENGTH': '5'}, None),
 }
 
+DEFAULT_MEMFILE = 100 * 1024
+
+
+def memfile_of(spec):
+    """max_memfile_size of the history's application (bodies longer than that are spooled to a temporary file)"""
+    return (spec or {}).get('memfile') or DEFAULT_MEMFILE
+
+
+def maxbody_of(spec):
+    return (spec or {}).get('maxbody', MAX_BODY)
+
+
+# bodies whose length straddles max_memfile_size (in memory / spooled to a temporary file), read by the handler:
+# echoed back (length + digest, read twice), chunked, as a multipart upload, or only touched
+UPLOAD_MEMFILE = 700    # smallest max_memfile_size the generated multipart uploads (headers + form values) fit into
+SPOOL_KINDS = ['spool-body', 'spool-chunked', 'spool-upload', 'spool-read']
+
+# CGI meta-variables / headers with values the framework cannot parse.  They are handed over by the
+# "server" at call time (`late`), so that nothing but the application itself ever sees them.
+MALFORMED_META = {
+    'CONTENT_LENGTH': ['3 bytes', '0x10', 'abc', '1e3', '-', '1.5', '1,5', '+-1', '12\x00'],
+    'CONTENT_TYPE': ['multipart/form-data', 'multipart/form-data; boundary=', ';;', 'application/json; charset', '/'],
+    'HTTP_COOKIE': ['=;=;', ';;', 'a', 'a=b=c;;=', '\xff=\xfe', 'k="unterminated'],
+    'HTTP_RANGE': ['bytes=a-b', 'nonsense', 'bytes=9-1'],
+    'HTTP_IF_MODIFIED_SINCE': ['yesterday', '0'],
+    'HTTP_CONTENT_LENGTH': ['x'],
+    'SERVER_PROTOCOL': ['HTTP/x', ''],
+}
+# outcomes a request with malformed meta-variables may have (the handler never looks at them)
+MALFORMED_BASES = ['ok-text', 'ok-cookie', 'nf', 'na', 'crash', 'badpath', 'head', 'ret-error', 'raise-resp', 'ok-text',
+                   'ok-cookie']
+
 HELPER_KINDS = ['static', 'static', 'static-range', 'static-ims', 'static-download', 'static-head', 'static-missing',
                 'redirect', 'abort']
 
 KINDS = ['custom-status', 'ok-text', 'ok-cookie', 'ok-zoo', 'nf', 'na', 'badpath', 'crash', 'raise-resp', 'ret-error', 'head',
          'iterable', 'cookie-then-body-error', 'upload', 'upload', 'app-error', 'app-resp', 'login', 'whoami', 'whoami',
-         'wild'] + list(BODY_KINDS)
+         'wild', 'malformed-meta', 'malformed-meta', 'malformed-length-read'] + SPOOL_KINDS + list(BODY_KINDS)
+
+
+def spool_payload(rid, size):
+    seedb = bytes((rid * 31 + i * 7) % 251 for i in range(64)) + b'\r\n--bnd'
+    return (seedb * (size // len(seedb) + 1))[:size]
+
+
+def chunked_encode(rng, payload, M):
+    """(a chunk header line has to fit into max_memfile_size = M bytes, else the framework answers 400)"""
+    out, i = [], 0
+    while i < len(payload):
+        k = rng.choice([1, 3, 16, 1000, 70000])
+        while len('%x' % k) + 2 > M:
+            k //= 16
+        piece = payload[i:i + max(k, 1)]
+        ext = rng.choice([b'', b'', b';ext=1'])
+        if len('%x' % len(piece)) + len(ext) + 2 > M:
+            ext = b''
+        out.append(b'%x%s\r\n' % (len(piece), ext) + piece + b'\r\n')
+        i += len(piece)
+    out.append(b'0\r\n\r\n')
+    return b''.join(out)
 
 
 def gen_hreq(g, rng, rid, kind=None, spec=None, force=None):
     """-> dict(req=zoo request, kind, body, extra, pre, bodyerr)"""
     kind = kind or rng.choice(KINDS)
+    if kind == 'malformed-meta':
+        # any outcome, served for a request that carries unparsable meta-variables
+        base = rng.choice(MALFORMED_BASES)
+        h = gen_hreq(g, rng, rid, base, spec, force)
+        late = {k: rng.choice(MALFORMED_META[k]) for k in rng.sample(sorted(MALFORMED_META), rng.choice([1, 1, 2, 3]))}
+        if rng.random() < .6:
+            late['CONTENT_LENGTH'] = rng.choice(MALFORMED_META['CONTENT_LENGTH'])
+        if base not in ('na', 'head') and rng.random() < .6:
+            h['req']['method'] = rng.choice(['POST', 'PUT'])
+            h['body'] = b'a=1'
+        h.update(kind=kind, base=base, late=late)
+        return h
+    if kind in ('upload', 'spool-upload') and spec is not None and memfile_of(spec) < UPLOAD_MEMFILE:
+        # (part headers and plain form values of an upload have to fit into max_memfile_size, else the answer is 413)
+        kind = rng.choice(['spool-body', 'spool-chunked'])
     req = dict(id=rid, method='GET', fw=rng.random() < .3, path_ok=True,
                tail=rng.choice(['', '', 'a', 'u%d' % rid, '<i>&"\'', 'é€']), query=rng.choice(['', 'a=1', 'r=%d' % rid]),
                route=None)
-    body, extra, pre, bodyerr, ext, helper = b'', {}, None, None, None, None
+    body, extra, pre, bodyerr, ext, helper, late = b'', {}, None, None, None, None, None
     ck = lambda: ('ck', rng.choice(zoo.CK_NAMES), rng.choice(zoo.CK_VALS))
     sh = lambda: ('sh', rng.choice(['X-A', 'X-B', 'ETag']), rng.choice(['v', '1', 'r%d' % rid]))
     if kind == 'ok-text':
@@ -309,6 +388,41 @@ def gen_hreq(g, rng, rid, kind=None, spec=None, force=None):
         extra = {'HTTP_COOKIE': 'c=v%d; d=%d' % (rid, rid), 'HTTP_X_V': 'hv%d' % rid}
         pre = 'wild'
         req['route'] = ('h', [], ('ret', ('t', 'wild-description')))
+    elif kind in SPOOL_KINDS:
+        M, cap = memfile_of(spec), maxbody_of(spec)
+        size = rng.choice([M - 1, M, M + 1, M + 1, M + 2, 2 * M + 3, M + 7])
+        if kind == 'spool-upload':
+            size = min(rng.choice([M - 400, M - 250, M - 100, M + 1]), 600)   # (+ ~250 bytes of part headers and a form field)
+        if cap is not None:
+            size = min(size, cap - (300 if kind == 'spool-upload' else 0))
+        payload = spool_payload(rid, max(size, 0))
+        how = kind
+        if kind == 'spool-read':
+            how = rng.choice(['spool-body', 'spool-chunked'])
+        if kind == 'spool-upload':
+            boundary = 'bnd%d' % rid
+            body = multipart_body(boundary, [('t', None, None, [], b'v%d' % rid),
+                                             ('f', 'big%d.bin' % rid, 'application/octet-stream', [], payload)])
+            extra = {'CONTENT_TYPE': 'multipart/form-data; boundary=' + boundary, 'CONTENT_LENGTH': str(len(body))}
+            pre = 'upload'
+        elif how == 'spool-chunked':
+            body = chunked_encode(rng, payload, M)
+            extra = {'HTTP_TRANSFER_ENCODING': 'chunked'}
+            pre = 'bodyecho' if kind != 'spool-read' else 'body'
+        else:
+            body = payload
+            extra = {'CONTENT_LENGTH': str(len(body)), 'CONTENT_TYPE': rng.choice(['application/octet-stream', 'text/plain'])}
+            pre = 'bodyecho' if kind != 'spool-read' else 'body'
+        req['route'] = ('h', [ck()] if rng.random() < .3 else [], ('ret', ('t', 'body-ok')))
+        req['method'] = rng.choice(['POST', 'PUT'])
+    elif kind == 'malformed-length-read':
+        # the handler reads the body of a request whose Content-Length is not a number: `int()` raises a
+        # ValueError that goes through no errors_map (a handler crash)
+        late = {'CONTENT_LENGTH': rng.choice(MALFORMED_META['CONTENT_LENGTH'])}
+        pre, body, bodyerr = 'body', b'a=1', '!ValueError'
+        req['route'] = ('h', [ck(), sh()] if rng.random() < .6 else [], ('ret', ('t', 'unreached')))
+        req['method'] = 'POST'
+        force = dict(force or {}, json=False)     # (the JSON error body shows the exception text)
     elif kind == 'cookie-then-body-error':
         k = rng.choice([x for x in BODY_KINDS if BODY_KINDS[x][3]])
         pre, body, extra, bodyerr = BODY_KINDS[k]
@@ -321,7 +435,8 @@ def gen_hreq(g, rng, rid, kind=None, spec=None, force=None):
     want_json = (force or {}).get('json')
     if spec is not None and (rng.random() < .3 if want_json is None else want_json) and zoo.json_safe(spec, req):
         req['json'] = True       # JSON error bodies (same mapped error, other representation)
-    return dict(req=req, kind=kind, body=body, extra=dict(extra), pre=pre, bodyerr=bodyerr, ext=ext, helper=helper)
+    return dict(req=req, kind=kind, body=body, extra=dict(extra), pre=pre, bodyerr=bodyerr, ext=ext, helper=helper,
+                late=late)
 
 
 def class_state_snapshot():
@@ -393,7 +508,7 @@ class Server:
 
     def __init__(self, spec, fresh_errors=False):
         self.log = zoo.Log()
-        config = dict(max_body_size=MAX_BODY)
+        config = dict(max_body_size=maxbody_of(spec), max_memfile_size=memfile_of(spec))
         if fresh_errors:
             import importlib
             om = importlib.import_module('ombott.ombott')
@@ -409,8 +524,91 @@ class Server:
         self.app = zoo.make_app(spec, self.log)
         self.app.setup(config)
         self.cur = dict(routes=set(), prog=None)
+        self.late = None
+        self.fw, self.seen, self.shared_ids, self.count = [], {}, set(), 0
+        self.interpose()
+
+    def interpose(self):
+        """the "server" side of the WSGI call: hands over the request's late meta-variables (the values a
+        client controls and that the harness itself must not parse) and, after the application returned,
+        takes weak references to the per-request objects the framework made (whatever hangs off the
+        environ: the body stream that replaced wsgi.input, parsed forms / uploads / cookies, ...)"""
+        app = self.app
+        orig = type(app).wsgi.__get__(app)
+        srv = weakref.ref(self)
+
+        def wsgi(environ, start_response):
+            me = srv()
+            if me is not None and me.late:
+                environ.update(me.late)
+            try:
+                return orig(environ, start_response)
+            finally:
+                if me is not None:
+                    me.scan(environ)
+        app.__dict__['wsgi'] = wsgi
+
+    def scan(self, environ):
+        import types
+        idx, self.count = self.count, self.count + 1
+        app = self.app
+        own = (app, app.request, app.response, self.log)
+        atoms = (str, bytes, int, float, bool, type, types.FunctionType, types.MethodType, types.BuiltinFunctionType,
+                 types.ModuleType)
+
+        def track(o, depth):
+            if o is None or isinstance(o, atoms) or any(o is x for x in own):
+                return
+            try:
+                r = weakref.ref(o)
+            except TypeError:
+                r = None
+            if r is not None:
+                prev = self.seen.get(id(o))
+                if prev is not None and prev[1]() is o:
+                    if prev[0] != idx:
+                        self.shared_ids.add(id(o))      # lives across requests: not a per-request object
+                    return
+                self.seen[id(o)] = (idx, r)
+                self.fw.append((idx, r))
+            if depth <= 0:
+                return
+            if isinstance(o, dict):
+                for x in list(o.values()):
+                    track(x, depth - 1)
+            elif isinstance(o, (list, tuple)):
+                for x in o:
+                    track(x, depth - 1)
+            else:
+                for name in ('dict', 'file', 'ombott_markup'):
+                    try:
+                        x = getattr(o, name, None)
+                    except Exception:
+                        x = None
+                    if x is not None:
+                        track(x, depth - 1)
+        for v in list(environ.values()):
+            track(v, 3)
+
+    def live_requests(self, keep=None):
+        """numbers of the requests of which some per-request object (environ, original input stream,
+        framework-made object) is still alive"""
+        alive = set()
+        for i, r in enumerate((keep or [])[0::2]):
+            if r() is not None:
+                alive.add(i)
+        for i, r in enumerate((keep or [])[1::2]):
+            if r() is not None:
+                alive.add(i)
+        for idx, r in self.fw:
+            o = r()
+            if o is not None and id(o) not in self.shared_ids:
+                alive.add(idx)
+            del o
+        return alive
 
     def serve_obs(self, h, keep=None, validate=False):
+        self.late = h.get('late')
         return zoo.serve_one(self.app, self.log, self.cur, h['req'], body=h['body'], extra=h['extra'], pre=pre_of(h),
                              validate=validate, env_cls=dict if validate else Env, input_cls=In, keep=keep)
 
@@ -469,6 +667,8 @@ def fixed_app(g, rng):
         spec['default_app'] = True        # static_file / redirect work on the default application
     if rng.random() < .2:
         spec['errors_map'] = dict(CUSTOM_ERRORS)
+    if rng.random() < .5:
+        spec['memfile'] = rng.choice([8, 16, 64, UPLOAD_MEMFILE, UPLOAD_MEMFILE])     # request bodies of the history straddle the spooling threshold
     if r < .4:
         return spec
     spec.pop('edits', None)          # C09's application is fixed over the history
@@ -495,9 +695,14 @@ class C09(Check):
     rule = ('request histories of length 1..12 over 19 request kinds (text, cookies+headers+status, zoo programs, 404, 405, '
             'undecodable path, handler crash, raised response with cookies, returned error, HEAD, closable iterable, '
             'malformed/truncated chunked body, oversized body (Content-Length and chunked), invalid JSON, mapped '
-            'RequestError, cookie then body error) on one application with random hooks/error handlers; each response '
-            'compared with the model and with a fresh application; retention after N identical failing requests '
-            'measured by weak references; non-trivial = history of length >= 2 containing a state-setting request '
+            'RequestError, cookie then body error, unparsable meta-variables (Content-Length / Content-Type / Cookie / '
+            'Range ...) handed over at call time with any outcome, a handler reading the body of a request whose '
+            'Content-Length is not a number, bodies straddling max_memfile_size (8..700 bytes and the default 100 KiB: '
+            'in memory / spooled; Content-Length, chunked, multipart; echoed back)) on one application with random '
+            'hooks/error handlers; each response '
+            'compared with the model and with a fresh application; retention after N requests of one kind '
+            'measured by weak references (environ, wsgi.input, every framework-made object hanging off the environ) '
+            'and by the descriptors left open; non-trivial = history of length >= 2 containing a state-setting request '
             'followed by an error-path request')
     assumptions = [
         'one worker thread (thread-local slots are C08)',
@@ -534,7 +739,8 @@ class C09(Check):
             if i and rng.random() < .35:
                 # the carry-over sites: an error path right after a state-setting request
                 kind = rng.choice(['badpath', 'nf', 'na', 'crash', 'chunked-garbage', 'oversize', 'bad-json',
-                                   'request-error', 'cookie-then-body-error'])
+                                   'request-error', 'cookie-then-body-error', 'malformed-meta', 'malformed-meta',
+                                   'malformed-length-read'])
             elif rng.random() < .25:
                 kind = rng.choice(['ok-cookie', 'raise-resp', 'login'])
             if spec is not None and spec.get('default_app') and rng.random() < .25:
@@ -576,11 +782,12 @@ class C09(Check):
                 if r and r[0] == 'EXC':
                     raise core.Infra(f'{h["kind"]} reference raised {r[1]}')
                 h['model_res'] = r[4]
-        ups = [h for h in hist if h['pre'] in ('upload', 'wild')]
+        ups = [h for h in hist if h['pre'] in ('upload', 'wild', 'bodyecho')]
         if not ups:
             return
         plain = [dict(h, req=dict(h['req'], route=('h', [], h['req']['route'][2]), json=False)) for h in ups]
-        for h, r in zip(ups, self.reference().serve(plain_spec(), plain)):
+        cfg = {k: spec[k] for k in ('memfile', 'maxbody') if spec and k in spec}
+        for h, r in zip(ups, self.reference().serve(dict(plain_spec(), **cfg), plain)):
             if r[0] != '200 OK':
                 raise core.Infra(f'{h["kind"]} reference answered {r[0]}')
             h['said'] = r[2].decode('utf8')
@@ -596,7 +803,7 @@ class C09(Check):
         live = None
         if retention:
             gc.collect()
-            live = len({id(r()) for r in keep[0::2] if r() is not None})
+            live = len(srv.live_requests(keep))
         return outs, urls, live
 
     def corr(self, rng, n):
@@ -632,10 +839,13 @@ class C09(Check):
         # retention: N identical failing requests
         sizes = [10, 100] if n < 2000 else [10, 100, 1000]
         for kind in ['chunked-garbage', 'oversize', 'bad-json', 'request-error', 'crash', 'badpath', 'nf',
-                     'cookie-then-body-error']:
+                     'cookie-then-body-error', 'malformed-meta', 'malformed-length-read', 'spool-read', 'spool-upload']:
             for N in sizes:
-                hist = [gen_hreq(g, rng, i + 1, kind, plain_spec()) for i in range(N)]
                 spec = plain_spec()
+                if kind in SPOOL_KINDS:
+                    spec['memfile'] = UPLOAD_MEMFILE if kind == 'spool-upload' else rng.choice([8, 16, 64])
+                hist = [gen_hreq(g, rng, i + 1, kind, spec) for i in range(N)]
+                self.describe_uploads(hist, spec)
                 outs, urls, live = self.run_history(spec, hist, retention=True)
                 toks = zoo.ser_app(spec) + ser_errors_map(spec) + [str(N)]
                 for h, u in zip(hist, urls):
@@ -716,28 +926,59 @@ class C09(Check):
         i = next((k for k in range(min(len(a[2]), len(b[2]))) if a[2][k] != b[2][k]), min(len(a[2]), len(b[2])))
         return f'body differs at byte {i}: {a[2][i:i + 60]!r} vs {b[2][i:i + 60]!r}'
 
+    @staticmethod
+    def measured_spec(kind):
+        """'kind@M': the application's max_memfile_size is M bytes ('default': the framework's own 100 KiB, with no
+        max_body_size so that bodies can get there)"""
+        spec = plain_spec()
+        kind, _, m = kind.partition('@')
+        if m == 'default':
+            spec['maxbody'] = None
+        elif m:
+            spec['memfile'] = int(m)
+        return kind, spec
+
+    @staticmethod
+    def open_fds():
+        import os
+        try:
+            return len(os.listdir('/proc/self/fd'))
+        except OSError:
+            return 0
+
     def _retention(self, kind, N, rng):
+        """-> (live environs, live original input streams, requests of which a framework-made object is alive,
+        descriptors opened and not closed)"""
         g = zoo.Gen(rng)
-        srv = Server(plain_spec())
+        kind, spec = self.measured_spec(kind)
+        srv = Server(spec)
         keep = []
+        srv.serve(gen_hreq(g, rng, 0, kind, spec))          # (imports, lazily opened resources)
+        srv.fw, srv.seen, srv.count = [], {}, 0
+        gc.collect()
+        fds = self.open_fds()
         for i in range(N):
-            srv.serve(gen_hreq(g, rng, i + 1, kind, plain_spec()), keep)
+            srv.serve(gen_hreq(g, rng, i + 1, kind, spec), keep)
         gc.collect()
         envs = len([1 for r in keep[0::2] if r() is not None])
         inputs = len([1 for r in keep[1::2] if r() is not None])
-        return envs, inputs
+        made = len(srv.live_requests())
+        return envs, inputs, made, self.open_fds() - fds
 
     def _growth(self, kind, N, rng):
         """number of objects the collector tracks after N and after 2N requests of one kind (varied
         urls / bodies); a leak proportional to the number of requests shows as growth"""
         g = zoo.Gen(rng)
-        srv = Server(plain_spec())
+        kind, spec = self.measured_spec(kind)
+        srv = Server(spec)
         rid = [0]
 
         def burst(k):
             for _ in range(k):
                 rid[0] += 1
-                srv.serve(gen_hreq(g, rng, rid[0], kind, plain_spec()))
+                srv.serve(gen_hreq(g, rng, rid[0], kind, spec))
+                if len(srv.fw) > 64:
+                    srv.fw, srv.seen = [], {}        # (the harness' own bookkeeping must not grow)
         import sys
         import tracemalloc
         tracemalloc.start()            # before the warm-up, so that replaced cache entries balance out
@@ -746,9 +987,11 @@ class C09(Check):
         container_sizes()              # (its own imports happen now, not between the two measurements)
         gc.collect()
         a, ma, ca, ba = len(gc.get_objects()), tracemalloc.get_traced_memory()[0], container_sizes(), sys.getallocatedblocks()
+        ca['process:open file descriptors'] = self.open_fds()
         burst(N)
         gc.collect()
         b, mb, cb, bb = len(gc.get_objects()), tracemalloc.get_traced_memory()[0], container_sizes(), sys.getallocatedblocks()
+        cb['process:open file descriptors'] = self.open_fds()
         tracemalloc.stop()
         grown = sorted((k, ca.get(k, 0), v) for k, v in cb.items() if v - ca.get(k, 0) >= max(8, N // 8))
         return a, b, ma, mb, bb - ba, grown
@@ -809,13 +1052,17 @@ class C09(Check):
                 findings.append(Finding(f'C09:{key}', what, dict(kind='history', app=enc(spec), hist=enc(hist))))
         sizes = [10, 100, 1000] if n < 2000 else [10, 100, 1000, 5000]
         fail_kinds = ['chunked-garbage', 'chunked-truncated', 'oversize', 'oversize-chunked', 'bad-json',
-                      'request-error', 'crash', 'badpath', 'nf', 'na', 'cookie-then-body-error', 'app-error']
+                      'request-error', 'crash', 'badpath', 'nf', 'na', 'cookie-then-body-error', 'app-error',
+                      'malformed-meta', 'malformed-length-read', 'oversize@64', 'upload@64']
+        # successful requests whose bodies straddle the spooling threshold (a small one and the framework's default)
+        spool_kinds = ['spool-read@8', 'spool-upload@700', 'spool-chunked@64', 'spool-read@default', 'good-body@4']
         evals += 1
         for name, before, after in self.reference().measure('class-state', '-', 2, rng.randrange(1 << 30)):
             findings.append(Finding(f'C09:class-state:{name}',
                                     f'serving further requests changed {name}: {before} -> {after}',
                                     dict(kind='class-state', n=2)))
-        growth_kinds = fail_kinds + ['ok-cookie', 'raise-resp', 'good-body', 'upload', 'wild', 'login', 'app-resp']
+        growth_kinds = (fail_kinds[:12] + ['ok-cookie', 'raise-resp', 'good-body', 'upload', 'wild', 'login', 'app-resp']
+                        + ['malformed-meta', 'upload@64', 'spool-read@8'])
         if n < 2000:      # quick tier: uploads, wildcard routes and two other kinds per run; thorough: every kind
             growth_kinds = ['upload', 'wild'] + rng.sample([k for k in growth_kinds if k not in ('upload', 'wild')], 2)
         for kind in growth_kinds:
@@ -825,30 +1072,40 @@ class C09(Check):
             self.stats.setdefault('growth', {})[kind] = [b - a, mb - ma, blocks]
             if self.grew(N, a, b, ma, mb, blocks) or grown:
                 findings.append(Finding(
-                    f'C09:growth:{kind}' + (':' + grown[0][0] if grown else ''),
+                    f'C09:growth:{kind.partition("@")[0]}' + (':' + grown[0][0] if grown else ''),
                     f'{N} further requests of kind {kind} (all-different URLs / values) grew the number of live objects '
                     f'from {a} to {b}, the traced memory from {ma} to {mb} bytes, the allocated blocks by {blocks}'
                     + (f'; containers / caches that grew with the requests: {grown[:4]}' if grown else ''),
                     dict(kind='growth', fail_kind=kind, n=N)))
-        big = set(fail_kinds if n >= 2000 else rng.sample(fail_kinds, 4))
-        for kind in fail_kinds:
+        big = set(fail_kinds + spool_kinds if n >= 2000 else rng.sample(fail_kinds, 4) + rng.sample(spool_kinds, 1))
+        for kind in fail_kinds + spool_kinds:
             for N in sizes:
-                if N >= 1000 and kind not in big:
-                    continue
+                if N >= 1000 and (kind not in big or (kind not in fail_kinds[:12] and N > 1000)):
+                    continue            # (5000 requests: the failing kinds of the first rounds only, to stay in the budget)
                 evals += 1
-                envs, inputs = self.reference().measure('retention', kind, N, rng.randrange(1 << 30))
-                if envs > self.K_BOUND or inputs > self.K_BOUND:
+                res = self.reference().measure('retention', kind, N, rng.randrange(1 << 30))
+                if res and res[0] == 'EXC':
+                    raise core.Infra(f'retention measurement of {kind} raised {res[1]}')
+                envs, inputs, made, fds = res
+                self.stats.setdefault('retention', {})[f'{kind}/{N}'] = list(res)
+                if max(envs, inputs, made, fds) > self.K_BOUND:
                     findings.append(Finding(
-                        f'C09:retention:{kind}',
+                        f'C09:retention:{kind.partition("@")[0]}',
                         f'after {N} requests of kind {kind}: {envs} environ and {inputs} wsgi.input objects are still '
-                        f'alive (bound {self.K_BOUND})', dict(kind='retention', fail_kind=kind, n=N)))
+                        f'alive, framework-made per-request objects (body stream, parsed forms, ...) of {made} requests '
+                        f'are still alive, {fds} file descriptors opened meanwhile are still open (bound {self.K_BOUND})',
+                        dict(kind='retention', fail_kind=kind, n=N)))
                     break
         return evals, findings
 
     @staticmethod
     def _spec(d):
         from harness.c03 import spec_of
-        return spec_of(d)
+        spec = spec_of(d)
+        for k in ('default_app', 'errors_map', 'memfile', 'maxbody'):
+            if k in d:
+                spec[k] = d[k]
+        return spec
 
     def replay(self, data):
         i = data['input']
@@ -866,10 +1123,11 @@ class C09(Check):
                         violates=self.grew(i['n'], a, b, ma, mb, blocks) or bool(grown))
         if i.get('kind') == 'retention':
             import random
-            envs, inputs = self.reference().measure('retention', i['fail_kind'], i['n'], 0)
+            envs, inputs, made, fds = self.reference().measure('retention', i['fail_kind'], i['n'], 0)
             self.close_reference()
-            return dict(input=i, live_environs=envs, live_inputs=inputs, bound=self.K_BOUND,
-                        violates=envs > self.K_BOUND or inputs > self.K_BOUND)
+            return dict(input=i, live_environs=envs, live_inputs=inputs, requests_with_live_framework_objects=made,
+                        descriptors_left_open=fds, bound=self.K_BOUND,
+                        violates=max(envs, inputs, made, fds) > self.K_BOUND)
         d = dec(i)
         spec, hist = self._spec(d['app']), [dict(x) for x in d['hist']]
         try:
